@@ -101,7 +101,7 @@ def _command():
 def _case():
     curve = st.sampled_from(["secp256r1", "secp384r1"])
     return curve.flatmap(lambda rc: st.fixed_dictionaries({
-        "family": st.sampled_from(FAMILIES),
+        "family": st.sampled_from(FAMILIES), "cfg_family": st.integers(0, 99),
         "root_curve": st.just(rc),
         "roots": st.lists(K.ec_scalars(rc, 0.2), min_size=1, max_size=4, unique=True),
         "used_root": st.integers(0, 3),
@@ -194,6 +194,24 @@ _DB = {}
 _N = [0]
 
 
+def _all_cfg_families() -> list:
+    if "all" not in _DB:
+        _family_info(_CFG_FAMILIES[0])
+        db = _DB["db"]
+        _DB["all"] = sorted(f for f in db.devices if "sb31" in list(db.devices[f].revisions.values())[-1])
+    return _DB["all"]
+
+
+def _pins() -> dict:
+    """ROM key numbering per device, frozen at the pinned commit (fixtures/c05/device_constants.json)."""
+    if "pins" not in _DB:
+        import json
+
+        with open(os.path.join(VERIF_DIR, "fixtures", "c05", "device_constants.json")) as f:
+            _DB["pins"] = json.load(f)["key_wraps_version"]
+    return _DB["pins"]
+
+
 def _family_info(family: str) -> dict:
     """supported commands / key wrap version from the device database (own YAML walk, vf.gen.dbenum)."""
     if not _DB:
@@ -253,8 +271,17 @@ def _build_from_config(case, o: Oracle, roots, used, isk, user_data, commands, s
     from spsdk.sbfile.sb31.images import SecureBinary31
     from spsdk.utils.schema_validator import check_config
 
-    family = _CFG_FAMILIES[_CFG_FAMILIES.index(case["family"]) if case["family"] in _CFG_FAMILIES else len(case["family"]) % len(_CFG_FAMILIES)]
+    if "cfg_family" in case:
+        # every family of the database that has SB3.1 (its set of commands and its key numbering are per-device data)
+        allf = _all_cfg_families()
+        family = allf[case["cfg_family"] % len(allf)]
+    else:
+        family = _CFG_FAMILIES[_CFG_FAMILIES.index(case["family"]) if case["family"] in _CFG_FAMILIES else len(case["family"]) % len(_CFG_FAMILIES)]
     info = _family_info(family)
+    wraps_version = _pins().get(family)
+    if wraps_version is None:
+        o.label("key_numbering:from_database")
+        wraps_version = int(info.get("key_wraps_version", 1))
     supported = set(info.get("supported_commands", []))
     _N[0] += 1
     wd = os.path.join(_CTX.get("work") or ".", "c05-%d-%d" % (os.getpid(), _N[0]))
@@ -264,7 +291,7 @@ def _build_from_config(case, o: Oracle, roots, used, isk, user_data, commands, s
         name = {"loadCMAC": "load", "loadHashLocking": "load"}.get(c["c"], c["c"])
         if name not in supported:
             continue
-        entry, eff = _command_cfg(c, wd, i, int(info.get("key_wraps_version", 1)))
+        entry, eff = _command_cfg(c, wd, i, wraps_version)
         if entry is not None:
             cfg_cmds.append(entry)
             real.append(eff)
